@@ -587,6 +587,18 @@ func (g *vGen) step(kind string) vGenStep {
 		return vGenStep{Signer: o, Msgs: []sdk.Msg{&ctypes.MsgCreateCertificate{Owner: o.Bech, Cert: crt, Pubkey: pub}}, Kind: kind}
 	case "revoke-cert":
 		o := g.anyActor()
+		// prefer an owner that has registered certificates
+		if r.Chance(4, 5) {
+			var owners []*vActor
+			for _, a := range g.h.c.actors {
+				if len(g.certs[a.Bech]) > 0 {
+					owners = append(owners, a)
+				}
+			}
+			if len(owners) > 0 {
+				o = owners[r.Intn(len(owners))]
+			}
+		}
 		serial := "1"
 		if ss := g.certs[o.Bech]; len(ss) > 0 && r.Chance(3, 4) {
 			serial = ss[r.Intn(len(ss))].String()
